@@ -467,6 +467,19 @@ impl ConnectionHandler for Handler {
     }
 }
 
+#[cfg(libp2p_verif)]
+impl Handler {
+    /// Verification hook: visibility shim for the private acceptance test.
+    pub fn verif_handle_incoming_info(&mut self, info: &Info) -> bool {
+        self.handle_incoming_info(info)
+    }
+
+    /// Verification hook: the remote info the handler currently holds.
+    pub fn verif_remote_info(&self) -> Option<&Info> {
+        self.remote_info.as_ref()
+    }
+}
+
 enum Success {
     SentIdentify,
     ReceivedIdentify(Info),
